@@ -373,12 +373,20 @@ def crash_points(syscalls, root, trace_path, initial=None, permute_unlinks=False
                 ln, tbuf = tbuf.split(b"\n", 1)
                 if ln.strip():
                     try:
-                        events.append(json.loads(ln))
+                        ev = json.loads(ln)
                     except ValueError:
-                        pass
+                        continue
+                    events.append(ev)
+                    if ev.get("t") == "ret":
+                        # "kill at any instant" includes the instant right after a call returned and before the next syscall: same image
+                        # as the previous point, but the call now counts as acknowledged
+                        points.append(CrashPoint(len(points), "after-return", len(events), points[-1].snap, points[-1].digest, s.line))
             continue
         if kind == "sync":
+            events.append({"t": "fsync", "file": d[len("fsync "):]})
             continue
+        if d.startswith("write "):
+            events.append({"t": "fswrite", "file": d.split(" ")[1]})
         dg = model.digest()
         if dg == points[-1].digest:
             continue
